@@ -70,6 +70,8 @@ type vmCase struct {
 	// noTracked: the script uses `save`, which deliberately lowers the machine's
 	// spendable balance below initial + postings
 	noTracked bool
+	// jsonVars, when non-nil, are handed over as the API does: JSON text per variable (SetVarsFromJSON)
+	jsonVars func() map[string]string
 }
 
 // wild: C27 mode — variable values are any typed values (negative amounts, portions outside
@@ -132,11 +134,17 @@ func execCase(c vmCase) (*Machine, *symStore, map[string]machine.Value, error) {
 	for k, v := range vars {
 		given[k] = v
 	}
-	parsed, err := p.ParseVariables(given)
-	if err != nil {
-		return m, st, vars, err
+	if c.jsonVars != nil {
+		if err := m.SetVarsFromJSON(c.jsonVars()); err != nil {
+			return m, st, vars, err
+		}
+	} else {
+		parsed, err := p.ParseVariables(given)
+		if err != nil {
+			return m, st, vars, err
+		}
+		m.Vars = parsed
 	}
-	m.Vars = parsed
 	if err := m.ResolveResources(context.Background(), st); err != nil {
 		return m, st, vars, err
 	}
